@@ -265,7 +265,7 @@ def hilbert_stage(rep):
             rep.violation("C11:hilbert-bijection", "# harness/h_hilbert.cpp (no input): height %d level %d: %d of %d indices do not round-trip\n" % (H, level, bij, n), True,
                           "Hilbert ordering, height %d level %d: %d of %d indices do not round-trip through their box position" % (H, level, bij, n))
         if par:
-            rep.violation("C11:hilbert-parent-containment", "# harness/h_hilbert.cpp (no input): height %d level %d: for %d of %d indices (first: %d) the parent index is not the cell that contains the index\n" % (H, level, par, n, first), True,
+            rep.violation("C11:hilbert-parent-containment:H=%d:l=%d:%d/%d:first=%d" % (H, level, par, n, first), "# harness/h_hilbert.cpp (no input): height %d level %d: for %d of %d indices (first: %d) the parent index is not the cell that contains the index\n" % (H, level, par, n, first), True,
                           "Hilbert ordering, height %d level %d: the parent of %d of %d indices (e.g. %d) is not the cell that geometrically contains them" % (H, level, par, n, first))
 
 
